@@ -642,206 +642,207 @@ def Frustum.planes_ortho {α : Type} [Add α] [Mul α] [Div α] [Neg α] [LT α]
   let t327 := ((1 : α) / t325)
   let t360 := (V3.length tmin sqrt ⟨(0 : α), (1 : α), (0 : α)⟩)
   let t361 := (V3.length tmin sqrt ⟨(1 : α), (0 : α), (0 : α)⟩)
-  let t362 := (V3.length tmin sqrt ⟨(0 : α), (-(1 : α)), (0 : α)⟩)
-  let t363 := (-l)
-  let t364 := (V3.length tmin sqrt ⟨(-(1 : α)), (0 : α), (0 : α)⟩)
-  let t365 := ((-(1 : α)) / t364)
-  let t366 := ((0 : α) / t364)
-  let t367 := ((0 : α) / t362)
-  let t368 := ((-(1 : α)) / t362)
-  let t369 := ((1 : α) / t361)
-  let t370 := ((0 : α) / t361)
-  let t371 := ((0 : α) / t360)
-  let t372 := ((1 : α) / t360)
+  let t362 := (-b)
+  let t363 := (V3.length tmin sqrt ⟨(0 : α), (-(1 : α)), (0 : α)⟩)
+  let t364 := (-l)
+  let t365 := (V3.length tmin sqrt ⟨(-(1 : α)), (0 : α), (0 : α)⟩)
+  let t366 := ((-(1 : α)) / t365)
+  let t367 := ((0 : α) / t365)
+  let t368 := ((0 : α) / t363)
+  let t369 := ((-(1 : α)) / t363)
+  let t370 := ((1 : α) / t361)
+  let t371 := ((0 : α) / t361)
+  let t372 := ((0 : α) / t360)
+  let t373 := ((1 : α) / t360)
   if t360 = (0 : α) then
     if t361 = (0 : α) then
-      if t362 = (0 : α) then
-        if t364 = (0 : α) then
+      if t363 = (0 : α) then
+        if t365 = (0 : α) then
           if t325 = (0 : α) then
             if t53 = (0 : α) then
-              (⟨⟨(0 : α), (1 : α), (0 : α)⟩, t⟩, ⟨⟨(1 : α), (0 : α), (0 : α)⟩, r⟩, ⟨⟨(0 : α), (-(1 : α)), (0 : α)⟩, b⟩, ⟨⟨(-(1 : α)), (0 : α), (0 : α)⟩, t363⟩, ⟨⟨(0 : α), (0 : α), (1 : α)⟩, t44⟩, ⟨⟨(0 : α), (0 : α), (-(1 : α))⟩, f⟩)
+              (⟨⟨(0 : α), (1 : α), (0 : α)⟩, t⟩, ⟨⟨(1 : α), (0 : α), (0 : α)⟩, r⟩, ⟨⟨(0 : α), (-(1 : α)), (0 : α)⟩, t362⟩, ⟨⟨(-(1 : α)), (0 : α), (0 : α)⟩, t364⟩, ⟨⟨(0 : α), (0 : α), (1 : α)⟩, t44⟩, ⟨⟨(0 : α), (0 : α), (-(1 : α))⟩, f⟩)
             else
-              (⟨⟨(0 : α), (1 : α), (0 : α)⟩, t⟩, ⟨⟨(1 : α), (0 : α), (0 : α)⟩, r⟩, ⟨⟨(0 : α), (-(1 : α)), (0 : α)⟩, b⟩, ⟨⟨(-(1 : α)), (0 : α), (0 : α)⟩, t363⟩, ⟨⟨(0 : α), (0 : α), (1 : α)⟩, t44⟩, ⟨⟨t83, t83, t84⟩, f⟩)
+              (⟨⟨(0 : α), (1 : α), (0 : α)⟩, t⟩, ⟨⟨(1 : α), (0 : α), (0 : α)⟩, r⟩, ⟨⟨(0 : α), (-(1 : α)), (0 : α)⟩, t362⟩, ⟨⟨(-(1 : α)), (0 : α), (0 : α)⟩, t364⟩, ⟨⟨(0 : α), (0 : α), (1 : α)⟩, t44⟩, ⟨⟨t83, t83, t84⟩, f⟩)
           else
             if t53 = (0 : α) then
-              (⟨⟨(0 : α), (1 : α), (0 : α)⟩, t⟩, ⟨⟨(1 : α), (0 : α), (0 : α)⟩, r⟩, ⟨⟨(0 : α), (-(1 : α)), (0 : α)⟩, b⟩, ⟨⟨(-(1 : α)), (0 : α), (0 : α)⟩, t363⟩, ⟨⟨t326, t326, t327⟩, t44⟩, ⟨⟨(0 : α), (0 : α), (-(1 : α))⟩, f⟩)
+              (⟨⟨(0 : α), (1 : α), (0 : α)⟩, t⟩, ⟨⟨(1 : α), (0 : α), (0 : α)⟩, r⟩, ⟨⟨(0 : α), (-(1 : α)), (0 : α)⟩, t362⟩, ⟨⟨(-(1 : α)), (0 : α), (0 : α)⟩, t364⟩, ⟨⟨t326, t326, t327⟩, t44⟩, ⟨⟨(0 : α), (0 : α), (-(1 : α))⟩, f⟩)
             else
-              (⟨⟨(0 : α), (1 : α), (0 : α)⟩, t⟩, ⟨⟨(1 : α), (0 : α), (0 : α)⟩, r⟩, ⟨⟨(0 : α), (-(1 : α)), (0 : α)⟩, b⟩, ⟨⟨(-(1 : α)), (0 : α), (0 : α)⟩, t363⟩, ⟨⟨t326, t326, t327⟩, t44⟩, ⟨⟨t83, t83, t84⟩, f⟩)
+              (⟨⟨(0 : α), (1 : α), (0 : α)⟩, t⟩, ⟨⟨(1 : α), (0 : α), (0 : α)⟩, r⟩, ⟨⟨(0 : α), (-(1 : α)), (0 : α)⟩, t362⟩, ⟨⟨(-(1 : α)), (0 : α), (0 : α)⟩, t364⟩, ⟨⟨t326, t326, t327⟩, t44⟩, ⟨⟨t83, t83, t84⟩, f⟩)
         else
           if t325 = (0 : α) then
             if t53 = (0 : α) then
-              (⟨⟨(0 : α), (1 : α), (0 : α)⟩, t⟩, ⟨⟨(1 : α), (0 : α), (0 : α)⟩, r⟩, ⟨⟨(0 : α), (-(1 : α)), (0 : α)⟩, b⟩, ⟨⟨t365, t366, t366⟩, t363⟩, ⟨⟨(0 : α), (0 : α), (1 : α)⟩, t44⟩, ⟨⟨(0 : α), (0 : α), (-(1 : α))⟩, f⟩)
+              (⟨⟨(0 : α), (1 : α), (0 : α)⟩, t⟩, ⟨⟨(1 : α), (0 : α), (0 : α)⟩, r⟩, ⟨⟨(0 : α), (-(1 : α)), (0 : α)⟩, t362⟩, ⟨⟨t366, t367, t367⟩, t364⟩, ⟨⟨(0 : α), (0 : α), (1 : α)⟩, t44⟩, ⟨⟨(0 : α), (0 : α), (-(1 : α))⟩, f⟩)
             else
-              (⟨⟨(0 : α), (1 : α), (0 : α)⟩, t⟩, ⟨⟨(1 : α), (0 : α), (0 : α)⟩, r⟩, ⟨⟨(0 : α), (-(1 : α)), (0 : α)⟩, b⟩, ⟨⟨t365, t366, t366⟩, t363⟩, ⟨⟨(0 : α), (0 : α), (1 : α)⟩, t44⟩, ⟨⟨t83, t83, t84⟩, f⟩)
+              (⟨⟨(0 : α), (1 : α), (0 : α)⟩, t⟩, ⟨⟨(1 : α), (0 : α), (0 : α)⟩, r⟩, ⟨⟨(0 : α), (-(1 : α)), (0 : α)⟩, t362⟩, ⟨⟨t366, t367, t367⟩, t364⟩, ⟨⟨(0 : α), (0 : α), (1 : α)⟩, t44⟩, ⟨⟨t83, t83, t84⟩, f⟩)
           else
             if t53 = (0 : α) then
-              (⟨⟨(0 : α), (1 : α), (0 : α)⟩, t⟩, ⟨⟨(1 : α), (0 : α), (0 : α)⟩, r⟩, ⟨⟨(0 : α), (-(1 : α)), (0 : α)⟩, b⟩, ⟨⟨t365, t366, t366⟩, t363⟩, ⟨⟨t326, t326, t327⟩, t44⟩, ⟨⟨(0 : α), (0 : α), (-(1 : α))⟩, f⟩)
+              (⟨⟨(0 : α), (1 : α), (0 : α)⟩, t⟩, ⟨⟨(1 : α), (0 : α), (0 : α)⟩, r⟩, ⟨⟨(0 : α), (-(1 : α)), (0 : α)⟩, t362⟩, ⟨⟨t366, t367, t367⟩, t364⟩, ⟨⟨t326, t326, t327⟩, t44⟩, ⟨⟨(0 : α), (0 : α), (-(1 : α))⟩, f⟩)
             else
-              (⟨⟨(0 : α), (1 : α), (0 : α)⟩, t⟩, ⟨⟨(1 : α), (0 : α), (0 : α)⟩, r⟩, ⟨⟨(0 : α), (-(1 : α)), (0 : α)⟩, b⟩, ⟨⟨t365, t366, t366⟩, t363⟩, ⟨⟨t326, t326, t327⟩, t44⟩, ⟨⟨t83, t83, t84⟩, f⟩)
+              (⟨⟨(0 : α), (1 : α), (0 : α)⟩, t⟩, ⟨⟨(1 : α), (0 : α), (0 : α)⟩, r⟩, ⟨⟨(0 : α), (-(1 : α)), (0 : α)⟩, t362⟩, ⟨⟨t366, t367, t367⟩, t364⟩, ⟨⟨t326, t326, t327⟩, t44⟩, ⟨⟨t83, t83, t84⟩, f⟩)
       else
-        if t364 = (0 : α) then
+        if t365 = (0 : α) then
           if t325 = (0 : α) then
             if t53 = (0 : α) then
-              (⟨⟨(0 : α), (1 : α), (0 : α)⟩, t⟩, ⟨⟨(1 : α), (0 : α), (0 : α)⟩, r⟩, ⟨⟨t367, t368, t367⟩, b⟩, ⟨⟨(-(1 : α)), (0 : α), (0 : α)⟩, t363⟩, ⟨⟨(0 : α), (0 : α), (1 : α)⟩, t44⟩, ⟨⟨(0 : α), (0 : α), (-(1 : α))⟩, f⟩)
+              (⟨⟨(0 : α), (1 : α), (0 : α)⟩, t⟩, ⟨⟨(1 : α), (0 : α), (0 : α)⟩, r⟩, ⟨⟨t368, t369, t368⟩, t362⟩, ⟨⟨(-(1 : α)), (0 : α), (0 : α)⟩, t364⟩, ⟨⟨(0 : α), (0 : α), (1 : α)⟩, t44⟩, ⟨⟨(0 : α), (0 : α), (-(1 : α))⟩, f⟩)
             else
-              (⟨⟨(0 : α), (1 : α), (0 : α)⟩, t⟩, ⟨⟨(1 : α), (0 : α), (0 : α)⟩, r⟩, ⟨⟨t367, t368, t367⟩, b⟩, ⟨⟨(-(1 : α)), (0 : α), (0 : α)⟩, t363⟩, ⟨⟨(0 : α), (0 : α), (1 : α)⟩, t44⟩, ⟨⟨t83, t83, t84⟩, f⟩)
+              (⟨⟨(0 : α), (1 : α), (0 : α)⟩, t⟩, ⟨⟨(1 : α), (0 : α), (0 : α)⟩, r⟩, ⟨⟨t368, t369, t368⟩, t362⟩, ⟨⟨(-(1 : α)), (0 : α), (0 : α)⟩, t364⟩, ⟨⟨(0 : α), (0 : α), (1 : α)⟩, t44⟩, ⟨⟨t83, t83, t84⟩, f⟩)
           else
             if t53 = (0 : α) then
-              (⟨⟨(0 : α), (1 : α), (0 : α)⟩, t⟩, ⟨⟨(1 : α), (0 : α), (0 : α)⟩, r⟩, ⟨⟨t367, t368, t367⟩, b⟩, ⟨⟨(-(1 : α)), (0 : α), (0 : α)⟩, t363⟩, ⟨⟨t326, t326, t327⟩, t44⟩, ⟨⟨(0 : α), (0 : α), (-(1 : α))⟩, f⟩)
+              (⟨⟨(0 : α), (1 : α), (0 : α)⟩, t⟩, ⟨⟨(1 : α), (0 : α), (0 : α)⟩, r⟩, ⟨⟨t368, t369, t368⟩, t362⟩, ⟨⟨(-(1 : α)), (0 : α), (0 : α)⟩, t364⟩, ⟨⟨t326, t326, t327⟩, t44⟩, ⟨⟨(0 : α), (0 : α), (-(1 : α))⟩, f⟩)
             else
-              (⟨⟨(0 : α), (1 : α), (0 : α)⟩, t⟩, ⟨⟨(1 : α), (0 : α), (0 : α)⟩, r⟩, ⟨⟨t367, t368, t367⟩, b⟩, ⟨⟨(-(1 : α)), (0 : α), (0 : α)⟩, t363⟩, ⟨⟨t326, t326, t327⟩, t44⟩, ⟨⟨t83, t83, t84⟩, f⟩)
+              (⟨⟨(0 : α), (1 : α), (0 : α)⟩, t⟩, ⟨⟨(1 : α), (0 : α), (0 : α)⟩, r⟩, ⟨⟨t368, t369, t368⟩, t362⟩, ⟨⟨(-(1 : α)), (0 : α), (0 : α)⟩, t364⟩, ⟨⟨t326, t326, t327⟩, t44⟩, ⟨⟨t83, t83, t84⟩, f⟩)
         else
           if t325 = (0 : α) then
             if t53 = (0 : α) then
-              (⟨⟨(0 : α), (1 : α), (0 : α)⟩, t⟩, ⟨⟨(1 : α), (0 : α), (0 : α)⟩, r⟩, ⟨⟨t367, t368, t367⟩, b⟩, ⟨⟨t365, t366, t366⟩, t363⟩, ⟨⟨(0 : α), (0 : α), (1 : α)⟩, t44⟩, ⟨⟨(0 : α), (0 : α), (-(1 : α))⟩, f⟩)
+              (⟨⟨(0 : α), (1 : α), (0 : α)⟩, t⟩, ⟨⟨(1 : α), (0 : α), (0 : α)⟩, r⟩, ⟨⟨t368, t369, t368⟩, t362⟩, ⟨⟨t366, t367, t367⟩, t364⟩, ⟨⟨(0 : α), (0 : α), (1 : α)⟩, t44⟩, ⟨⟨(0 : α), (0 : α), (-(1 : α))⟩, f⟩)
             else
-              (⟨⟨(0 : α), (1 : α), (0 : α)⟩, t⟩, ⟨⟨(1 : α), (0 : α), (0 : α)⟩, r⟩, ⟨⟨t367, t368, t367⟩, b⟩, ⟨⟨t365, t366, t366⟩, t363⟩, ⟨⟨(0 : α), (0 : α), (1 : α)⟩, t44⟩, ⟨⟨t83, t83, t84⟩, f⟩)
+              (⟨⟨(0 : α), (1 : α), (0 : α)⟩, t⟩, ⟨⟨(1 : α), (0 : α), (0 : α)⟩, r⟩, ⟨⟨t368, t369, t368⟩, t362⟩, ⟨⟨t366, t367, t367⟩, t364⟩, ⟨⟨(0 : α), (0 : α), (1 : α)⟩, t44⟩, ⟨⟨t83, t83, t84⟩, f⟩)
           else
             if t53 = (0 : α) then
-              (⟨⟨(0 : α), (1 : α), (0 : α)⟩, t⟩, ⟨⟨(1 : α), (0 : α), (0 : α)⟩, r⟩, ⟨⟨t367, t368, t367⟩, b⟩, ⟨⟨t365, t366, t366⟩, t363⟩, ⟨⟨t326, t326, t327⟩, t44⟩, ⟨⟨(0 : α), (0 : α), (-(1 : α))⟩, f⟩)
+              (⟨⟨(0 : α), (1 : α), (0 : α)⟩, t⟩, ⟨⟨(1 : α), (0 : α), (0 : α)⟩, r⟩, ⟨⟨t368, t369, t368⟩, t362⟩, ⟨⟨t366, t367, t367⟩, t364⟩, ⟨⟨t326, t326, t327⟩, t44⟩, ⟨⟨(0 : α), (0 : α), (-(1 : α))⟩, f⟩)
             else
-              (⟨⟨(0 : α), (1 : α), (0 : α)⟩, t⟩, ⟨⟨(1 : α), (0 : α), (0 : α)⟩, r⟩, ⟨⟨t367, t368, t367⟩, b⟩, ⟨⟨t365, t366, t366⟩, t363⟩, ⟨⟨t326, t326, t327⟩, t44⟩, ⟨⟨t83, t83, t84⟩, f⟩)
+              (⟨⟨(0 : α), (1 : α), (0 : α)⟩, t⟩, ⟨⟨(1 : α), (0 : α), (0 : α)⟩, r⟩, ⟨⟨t368, t369, t368⟩, t362⟩, ⟨⟨t366, t367, t367⟩, t364⟩, ⟨⟨t326, t326, t327⟩, t44⟩, ⟨⟨t83, t83, t84⟩, f⟩)
     else
-      if t362 = (0 : α) then
-        if t364 = (0 : α) then
+      if t363 = (0 : α) then
+        if t365 = (0 : α) then
           if t325 = (0 : α) then
             if t53 = (0 : α) then
-              (⟨⟨(0 : α), (1 : α), (0 : α)⟩, t⟩, ⟨⟨t369, t370, t370⟩, r⟩, ⟨⟨(0 : α), (-(1 : α)), (0 : α)⟩, b⟩, ⟨⟨(-(1 : α)), (0 : α), (0 : α)⟩, t363⟩, ⟨⟨(0 : α), (0 : α), (1 : α)⟩, t44⟩, ⟨⟨(0 : α), (0 : α), (-(1 : α))⟩, f⟩)
+              (⟨⟨(0 : α), (1 : α), (0 : α)⟩, t⟩, ⟨⟨t370, t371, t371⟩, r⟩, ⟨⟨(0 : α), (-(1 : α)), (0 : α)⟩, t362⟩, ⟨⟨(-(1 : α)), (0 : α), (0 : α)⟩, t364⟩, ⟨⟨(0 : α), (0 : α), (1 : α)⟩, t44⟩, ⟨⟨(0 : α), (0 : α), (-(1 : α))⟩, f⟩)
             else
-              (⟨⟨(0 : α), (1 : α), (0 : α)⟩, t⟩, ⟨⟨t369, t370, t370⟩, r⟩, ⟨⟨(0 : α), (-(1 : α)), (0 : α)⟩, b⟩, ⟨⟨(-(1 : α)), (0 : α), (0 : α)⟩, t363⟩, ⟨⟨(0 : α), (0 : α), (1 : α)⟩, t44⟩, ⟨⟨t83, t83, t84⟩, f⟩)
+              (⟨⟨(0 : α), (1 : α), (0 : α)⟩, t⟩, ⟨⟨t370, t371, t371⟩, r⟩, ⟨⟨(0 : α), (-(1 : α)), (0 : α)⟩, t362⟩, ⟨⟨(-(1 : α)), (0 : α), (0 : α)⟩, t364⟩, ⟨⟨(0 : α), (0 : α), (1 : α)⟩, t44⟩, ⟨⟨t83, t83, t84⟩, f⟩)
           else
             if t53 = (0 : α) then
-              (⟨⟨(0 : α), (1 : α), (0 : α)⟩, t⟩, ⟨⟨t369, t370, t370⟩, r⟩, ⟨⟨(0 : α), (-(1 : α)), (0 : α)⟩, b⟩, ⟨⟨(-(1 : α)), (0 : α), (0 : α)⟩, t363⟩, ⟨⟨t326, t326, t327⟩, t44⟩, ⟨⟨(0 : α), (0 : α), (-(1 : α))⟩, f⟩)
+              (⟨⟨(0 : α), (1 : α), (0 : α)⟩, t⟩, ⟨⟨t370, t371, t371⟩, r⟩, ⟨⟨(0 : α), (-(1 : α)), (0 : α)⟩, t362⟩, ⟨⟨(-(1 : α)), (0 : α), (0 : α)⟩, t364⟩, ⟨⟨t326, t326, t327⟩, t44⟩, ⟨⟨(0 : α), (0 : α), (-(1 : α))⟩, f⟩)
             else
-              (⟨⟨(0 : α), (1 : α), (0 : α)⟩, t⟩, ⟨⟨t369, t370, t370⟩, r⟩, ⟨⟨(0 : α), (-(1 : α)), (0 : α)⟩, b⟩, ⟨⟨(-(1 : α)), (0 : α), (0 : α)⟩, t363⟩, ⟨⟨t326, t326, t327⟩, t44⟩, ⟨⟨t83, t83, t84⟩, f⟩)
+              (⟨⟨(0 : α), (1 : α), (0 : α)⟩, t⟩, ⟨⟨t370, t371, t371⟩, r⟩, ⟨⟨(0 : α), (-(1 : α)), (0 : α)⟩, t362⟩, ⟨⟨(-(1 : α)), (0 : α), (0 : α)⟩, t364⟩, ⟨⟨t326, t326, t327⟩, t44⟩, ⟨⟨t83, t83, t84⟩, f⟩)
         else
           if t325 = (0 : α) then
             if t53 = (0 : α) then
-              (⟨⟨(0 : α), (1 : α), (0 : α)⟩, t⟩, ⟨⟨t369, t370, t370⟩, r⟩, ⟨⟨(0 : α), (-(1 : α)), (0 : α)⟩, b⟩, ⟨⟨t365, t366, t366⟩, t363⟩, ⟨⟨(0 : α), (0 : α), (1 : α)⟩, t44⟩, ⟨⟨(0 : α), (0 : α), (-(1 : α))⟩, f⟩)
+              (⟨⟨(0 : α), (1 : α), (0 : α)⟩, t⟩, ⟨⟨t370, t371, t371⟩, r⟩, ⟨⟨(0 : α), (-(1 : α)), (0 : α)⟩, t362⟩, ⟨⟨t366, t367, t367⟩, t364⟩, ⟨⟨(0 : α), (0 : α), (1 : α)⟩, t44⟩, ⟨⟨(0 : α), (0 : α), (-(1 : α))⟩, f⟩)
             else
-              (⟨⟨(0 : α), (1 : α), (0 : α)⟩, t⟩, ⟨⟨t369, t370, t370⟩, r⟩, ⟨⟨(0 : α), (-(1 : α)), (0 : α)⟩, b⟩, ⟨⟨t365, t366, t366⟩, t363⟩, ⟨⟨(0 : α), (0 : α), (1 : α)⟩, t44⟩, ⟨⟨t83, t83, t84⟩, f⟩)
+              (⟨⟨(0 : α), (1 : α), (0 : α)⟩, t⟩, ⟨⟨t370, t371, t371⟩, r⟩, ⟨⟨(0 : α), (-(1 : α)), (0 : α)⟩, t362⟩, ⟨⟨t366, t367, t367⟩, t364⟩, ⟨⟨(0 : α), (0 : α), (1 : α)⟩, t44⟩, ⟨⟨t83, t83, t84⟩, f⟩)
           else
             if t53 = (0 : α) then
-              (⟨⟨(0 : α), (1 : α), (0 : α)⟩, t⟩, ⟨⟨t369, t370, t370⟩, r⟩, ⟨⟨(0 : α), (-(1 : α)), (0 : α)⟩, b⟩, ⟨⟨t365, t366, t366⟩, t363⟩, ⟨⟨t326, t326, t327⟩, t44⟩, ⟨⟨(0 : α), (0 : α), (-(1 : α))⟩, f⟩)
+              (⟨⟨(0 : α), (1 : α), (0 : α)⟩, t⟩, ⟨⟨t370, t371, t371⟩, r⟩, ⟨⟨(0 : α), (-(1 : α)), (0 : α)⟩, t362⟩, ⟨⟨t366, t367, t367⟩, t364⟩, ⟨⟨t326, t326, t327⟩, t44⟩, ⟨⟨(0 : α), (0 : α), (-(1 : α))⟩, f⟩)
             else
-              (⟨⟨(0 : α), (1 : α), (0 : α)⟩, t⟩, ⟨⟨t369, t370, t370⟩, r⟩, ⟨⟨(0 : α), (-(1 : α)), (0 : α)⟩, b⟩, ⟨⟨t365, t366, t366⟩, t363⟩, ⟨⟨t326, t326, t327⟩, t44⟩, ⟨⟨t83, t83, t84⟩, f⟩)
+              (⟨⟨(0 : α), (1 : α), (0 : α)⟩, t⟩, ⟨⟨t370, t371, t371⟩, r⟩, ⟨⟨(0 : α), (-(1 : α)), (0 : α)⟩, t362⟩, ⟨⟨t366, t367, t367⟩, t364⟩, ⟨⟨t326, t326, t327⟩, t44⟩, ⟨⟨t83, t83, t84⟩, f⟩)
       else
-        if t364 = (0 : α) then
+        if t365 = (0 : α) then
           if t325 = (0 : α) then
             if t53 = (0 : α) then
-              (⟨⟨(0 : α), (1 : α), (0 : α)⟩, t⟩, ⟨⟨t369, t370, t370⟩, r⟩, ⟨⟨t367, t368, t367⟩, b⟩, ⟨⟨(-(1 : α)), (0 : α), (0 : α)⟩, t363⟩, ⟨⟨(0 : α), (0 : α), (1 : α)⟩, t44⟩, ⟨⟨(0 : α), (0 : α), (-(1 : α))⟩, f⟩)
+              (⟨⟨(0 : α), (1 : α), (0 : α)⟩, t⟩, ⟨⟨t370, t371, t371⟩, r⟩, ⟨⟨t368, t369, t368⟩, t362⟩, ⟨⟨(-(1 : α)), (0 : α), (0 : α)⟩, t364⟩, ⟨⟨(0 : α), (0 : α), (1 : α)⟩, t44⟩, ⟨⟨(0 : α), (0 : α), (-(1 : α))⟩, f⟩)
             else
-              (⟨⟨(0 : α), (1 : α), (0 : α)⟩, t⟩, ⟨⟨t369, t370, t370⟩, r⟩, ⟨⟨t367, t368, t367⟩, b⟩, ⟨⟨(-(1 : α)), (0 : α), (0 : α)⟩, t363⟩, ⟨⟨(0 : α), (0 : α), (1 : α)⟩, t44⟩, ⟨⟨t83, t83, t84⟩, f⟩)
+              (⟨⟨(0 : α), (1 : α), (0 : α)⟩, t⟩, ⟨⟨t370, t371, t371⟩, r⟩, ⟨⟨t368, t369, t368⟩, t362⟩, ⟨⟨(-(1 : α)), (0 : α), (0 : α)⟩, t364⟩, ⟨⟨(0 : α), (0 : α), (1 : α)⟩, t44⟩, ⟨⟨t83, t83, t84⟩, f⟩)
           else
             if t53 = (0 : α) then
-              (⟨⟨(0 : α), (1 : α), (0 : α)⟩, t⟩, ⟨⟨t369, t370, t370⟩, r⟩, ⟨⟨t367, t368, t367⟩, b⟩, ⟨⟨(-(1 : α)), (0 : α), (0 : α)⟩, t363⟩, ⟨⟨t326, t326, t327⟩, t44⟩, ⟨⟨(0 : α), (0 : α), (-(1 : α))⟩, f⟩)
+              (⟨⟨(0 : α), (1 : α), (0 : α)⟩, t⟩, ⟨⟨t370, t371, t371⟩, r⟩, ⟨⟨t368, t369, t368⟩, t362⟩, ⟨⟨(-(1 : α)), (0 : α), (0 : α)⟩, t364⟩, ⟨⟨t326, t326, t327⟩, t44⟩, ⟨⟨(0 : α), (0 : α), (-(1 : α))⟩, f⟩)
             else
-              (⟨⟨(0 : α), (1 : α), (0 : α)⟩, t⟩, ⟨⟨t369, t370, t370⟩, r⟩, ⟨⟨t367, t368, t367⟩, b⟩, ⟨⟨(-(1 : α)), (0 : α), (0 : α)⟩, t363⟩, ⟨⟨t326, t326, t327⟩, t44⟩, ⟨⟨t83, t83, t84⟩, f⟩)
+              (⟨⟨(0 : α), (1 : α), (0 : α)⟩, t⟩, ⟨⟨t370, t371, t371⟩, r⟩, ⟨⟨t368, t369, t368⟩, t362⟩, ⟨⟨(-(1 : α)), (0 : α), (0 : α)⟩, t364⟩, ⟨⟨t326, t326, t327⟩, t44⟩, ⟨⟨t83, t83, t84⟩, f⟩)
         else
           if t325 = (0 : α) then
             if t53 = (0 : α) then
-              (⟨⟨(0 : α), (1 : α), (0 : α)⟩, t⟩, ⟨⟨t369, t370, t370⟩, r⟩, ⟨⟨t367, t368, t367⟩, b⟩, ⟨⟨t365, t366, t366⟩, t363⟩, ⟨⟨(0 : α), (0 : α), (1 : α)⟩, t44⟩, ⟨⟨(0 : α), (0 : α), (-(1 : α))⟩, f⟩)
+              (⟨⟨(0 : α), (1 : α), (0 : α)⟩, t⟩, ⟨⟨t370, t371, t371⟩, r⟩, ⟨⟨t368, t369, t368⟩, t362⟩, ⟨⟨t366, t367, t367⟩, t364⟩, ⟨⟨(0 : α), (0 : α), (1 : α)⟩, t44⟩, ⟨⟨(0 : α), (0 : α), (-(1 : α))⟩, f⟩)
             else
-              (⟨⟨(0 : α), (1 : α), (0 : α)⟩, t⟩, ⟨⟨t369, t370, t370⟩, r⟩, ⟨⟨t367, t368, t367⟩, b⟩, ⟨⟨t365, t366, t366⟩, t363⟩, ⟨⟨(0 : α), (0 : α), (1 : α)⟩, t44⟩, ⟨⟨t83, t83, t84⟩, f⟩)
+              (⟨⟨(0 : α), (1 : α), (0 : α)⟩, t⟩, ⟨⟨t370, t371, t371⟩, r⟩, ⟨⟨t368, t369, t368⟩, t362⟩, ⟨⟨t366, t367, t367⟩, t364⟩, ⟨⟨(0 : α), (0 : α), (1 : α)⟩, t44⟩, ⟨⟨t83, t83, t84⟩, f⟩)
           else
             if t53 = (0 : α) then
-              (⟨⟨(0 : α), (1 : α), (0 : α)⟩, t⟩, ⟨⟨t369, t370, t370⟩, r⟩, ⟨⟨t367, t368, t367⟩, b⟩, ⟨⟨t365, t366, t366⟩, t363⟩, ⟨⟨t326, t326, t327⟩, t44⟩, ⟨⟨(0 : α), (0 : α), (-(1 : α))⟩, f⟩)
+              (⟨⟨(0 : α), (1 : α), (0 : α)⟩, t⟩, ⟨⟨t370, t371, t371⟩, r⟩, ⟨⟨t368, t369, t368⟩, t362⟩, ⟨⟨t366, t367, t367⟩, t364⟩, ⟨⟨t326, t326, t327⟩, t44⟩, ⟨⟨(0 : α), (0 : α), (-(1 : α))⟩, f⟩)
             else
-              (⟨⟨(0 : α), (1 : α), (0 : α)⟩, t⟩, ⟨⟨t369, t370, t370⟩, r⟩, ⟨⟨t367, t368, t367⟩, b⟩, ⟨⟨t365, t366, t366⟩, t363⟩, ⟨⟨t326, t326, t327⟩, t44⟩, ⟨⟨t83, t83, t84⟩, f⟩)
+              (⟨⟨(0 : α), (1 : α), (0 : α)⟩, t⟩, ⟨⟨t370, t371, t371⟩, r⟩, ⟨⟨t368, t369, t368⟩, t362⟩, ⟨⟨t366, t367, t367⟩, t364⟩, ⟨⟨t326, t326, t327⟩, t44⟩, ⟨⟨t83, t83, t84⟩, f⟩)
   else
     if t361 = (0 : α) then
-      if t362 = (0 : α) then
-        if t364 = (0 : α) then
+      if t363 = (0 : α) then
+        if t365 = (0 : α) then
           if t325 = (0 : α) then
             if t53 = (0 : α) then
-              (⟨⟨t371, t372, t371⟩, t⟩, ⟨⟨(1 : α), (0 : α), (0 : α)⟩, r⟩, ⟨⟨(0 : α), (-(1 : α)), (0 : α)⟩, b⟩, ⟨⟨(-(1 : α)), (0 : α), (0 : α)⟩, t363⟩, ⟨⟨(0 : α), (0 : α), (1 : α)⟩, t44⟩, ⟨⟨(0 : α), (0 : α), (-(1 : α))⟩, f⟩)
+              (⟨⟨t372, t373, t372⟩, t⟩, ⟨⟨(1 : α), (0 : α), (0 : α)⟩, r⟩, ⟨⟨(0 : α), (-(1 : α)), (0 : α)⟩, t362⟩, ⟨⟨(-(1 : α)), (0 : α), (0 : α)⟩, t364⟩, ⟨⟨(0 : α), (0 : α), (1 : α)⟩, t44⟩, ⟨⟨(0 : α), (0 : α), (-(1 : α))⟩, f⟩)
             else
-              (⟨⟨t371, t372, t371⟩, t⟩, ⟨⟨(1 : α), (0 : α), (0 : α)⟩, r⟩, ⟨⟨(0 : α), (-(1 : α)), (0 : α)⟩, b⟩, ⟨⟨(-(1 : α)), (0 : α), (0 : α)⟩, t363⟩, ⟨⟨(0 : α), (0 : α), (1 : α)⟩, t44⟩, ⟨⟨t83, t83, t84⟩, f⟩)
+              (⟨⟨t372, t373, t372⟩, t⟩, ⟨⟨(1 : α), (0 : α), (0 : α)⟩, r⟩, ⟨⟨(0 : α), (-(1 : α)), (0 : α)⟩, t362⟩, ⟨⟨(-(1 : α)), (0 : α), (0 : α)⟩, t364⟩, ⟨⟨(0 : α), (0 : α), (1 : α)⟩, t44⟩, ⟨⟨t83, t83, t84⟩, f⟩)
           else
             if t53 = (0 : α) then
-              (⟨⟨t371, t372, t371⟩, t⟩, ⟨⟨(1 : α), (0 : α), (0 : α)⟩, r⟩, ⟨⟨(0 : α), (-(1 : α)), (0 : α)⟩, b⟩, ⟨⟨(-(1 : α)), (0 : α), (0 : α)⟩, t363⟩, ⟨⟨t326, t326, t327⟩, t44⟩, ⟨⟨(0 : α), (0 : α), (-(1 : α))⟩, f⟩)
+              (⟨⟨t372, t373, t372⟩, t⟩, ⟨⟨(1 : α), (0 : α), (0 : α)⟩, r⟩, ⟨⟨(0 : α), (-(1 : α)), (0 : α)⟩, t362⟩, ⟨⟨(-(1 : α)), (0 : α), (0 : α)⟩, t364⟩, ⟨⟨t326, t326, t327⟩, t44⟩, ⟨⟨(0 : α), (0 : α), (-(1 : α))⟩, f⟩)
             else
-              (⟨⟨t371, t372, t371⟩, t⟩, ⟨⟨(1 : α), (0 : α), (0 : α)⟩, r⟩, ⟨⟨(0 : α), (-(1 : α)), (0 : α)⟩, b⟩, ⟨⟨(-(1 : α)), (0 : α), (0 : α)⟩, t363⟩, ⟨⟨t326, t326, t327⟩, t44⟩, ⟨⟨t83, t83, t84⟩, f⟩)
+              (⟨⟨t372, t373, t372⟩, t⟩, ⟨⟨(1 : α), (0 : α), (0 : α)⟩, r⟩, ⟨⟨(0 : α), (-(1 : α)), (0 : α)⟩, t362⟩, ⟨⟨(-(1 : α)), (0 : α), (0 : α)⟩, t364⟩, ⟨⟨t326, t326, t327⟩, t44⟩, ⟨⟨t83, t83, t84⟩, f⟩)
         else
           if t325 = (0 : α) then
             if t53 = (0 : α) then
-              (⟨⟨t371, t372, t371⟩, t⟩, ⟨⟨(1 : α), (0 : α), (0 : α)⟩, r⟩, ⟨⟨(0 : α), (-(1 : α)), (0 : α)⟩, b⟩, ⟨⟨t365, t366, t366⟩, t363⟩, ⟨⟨(0 : α), (0 : α), (1 : α)⟩, t44⟩, ⟨⟨(0 : α), (0 : α), (-(1 : α))⟩, f⟩)
+              (⟨⟨t372, t373, t372⟩, t⟩, ⟨⟨(1 : α), (0 : α), (0 : α)⟩, r⟩, ⟨⟨(0 : α), (-(1 : α)), (0 : α)⟩, t362⟩, ⟨⟨t366, t367, t367⟩, t364⟩, ⟨⟨(0 : α), (0 : α), (1 : α)⟩, t44⟩, ⟨⟨(0 : α), (0 : α), (-(1 : α))⟩, f⟩)
             else
-              (⟨⟨t371, t372, t371⟩, t⟩, ⟨⟨(1 : α), (0 : α), (0 : α)⟩, r⟩, ⟨⟨(0 : α), (-(1 : α)), (0 : α)⟩, b⟩, ⟨⟨t365, t366, t366⟩, t363⟩, ⟨⟨(0 : α), (0 : α), (1 : α)⟩, t44⟩, ⟨⟨t83, t83, t84⟩, f⟩)
+              (⟨⟨t372, t373, t372⟩, t⟩, ⟨⟨(1 : α), (0 : α), (0 : α)⟩, r⟩, ⟨⟨(0 : α), (-(1 : α)), (0 : α)⟩, t362⟩, ⟨⟨t366, t367, t367⟩, t364⟩, ⟨⟨(0 : α), (0 : α), (1 : α)⟩, t44⟩, ⟨⟨t83, t83, t84⟩, f⟩)
           else
             if t53 = (0 : α) then
-              (⟨⟨t371, t372, t371⟩, t⟩, ⟨⟨(1 : α), (0 : α), (0 : α)⟩, r⟩, ⟨⟨(0 : α), (-(1 : α)), (0 : α)⟩, b⟩, ⟨⟨t365, t366, t366⟩, t363⟩, ⟨⟨t326, t326, t327⟩, t44⟩, ⟨⟨(0 : α), (0 : α), (-(1 : α))⟩, f⟩)
+              (⟨⟨t372, t373, t372⟩, t⟩, ⟨⟨(1 : α), (0 : α), (0 : α)⟩, r⟩, ⟨⟨(0 : α), (-(1 : α)), (0 : α)⟩, t362⟩, ⟨⟨t366, t367, t367⟩, t364⟩, ⟨⟨t326, t326, t327⟩, t44⟩, ⟨⟨(0 : α), (0 : α), (-(1 : α))⟩, f⟩)
             else
-              (⟨⟨t371, t372, t371⟩, t⟩, ⟨⟨(1 : α), (0 : α), (0 : α)⟩, r⟩, ⟨⟨(0 : α), (-(1 : α)), (0 : α)⟩, b⟩, ⟨⟨t365, t366, t366⟩, t363⟩, ⟨⟨t326, t326, t327⟩, t44⟩, ⟨⟨t83, t83, t84⟩, f⟩)
+              (⟨⟨t372, t373, t372⟩, t⟩, ⟨⟨(1 : α), (0 : α), (0 : α)⟩, r⟩, ⟨⟨(0 : α), (-(1 : α)), (0 : α)⟩, t362⟩, ⟨⟨t366, t367, t367⟩, t364⟩, ⟨⟨t326, t326, t327⟩, t44⟩, ⟨⟨t83, t83, t84⟩, f⟩)
       else
-        if t364 = (0 : α) then
+        if t365 = (0 : α) then
           if t325 = (0 : α) then
             if t53 = (0 : α) then
-              (⟨⟨t371, t372, t371⟩, t⟩, ⟨⟨(1 : α), (0 : α), (0 : α)⟩, r⟩, ⟨⟨t367, t368, t367⟩, b⟩, ⟨⟨(-(1 : α)), (0 : α), (0 : α)⟩, t363⟩, ⟨⟨(0 : α), (0 : α), (1 : α)⟩, t44⟩, ⟨⟨(0 : α), (0 : α), (-(1 : α))⟩, f⟩)
+              (⟨⟨t372, t373, t372⟩, t⟩, ⟨⟨(1 : α), (0 : α), (0 : α)⟩, r⟩, ⟨⟨t368, t369, t368⟩, t362⟩, ⟨⟨(-(1 : α)), (0 : α), (0 : α)⟩, t364⟩, ⟨⟨(0 : α), (0 : α), (1 : α)⟩, t44⟩, ⟨⟨(0 : α), (0 : α), (-(1 : α))⟩, f⟩)
             else
-              (⟨⟨t371, t372, t371⟩, t⟩, ⟨⟨(1 : α), (0 : α), (0 : α)⟩, r⟩, ⟨⟨t367, t368, t367⟩, b⟩, ⟨⟨(-(1 : α)), (0 : α), (0 : α)⟩, t363⟩, ⟨⟨(0 : α), (0 : α), (1 : α)⟩, t44⟩, ⟨⟨t83, t83, t84⟩, f⟩)
+              (⟨⟨t372, t373, t372⟩, t⟩, ⟨⟨(1 : α), (0 : α), (0 : α)⟩, r⟩, ⟨⟨t368, t369, t368⟩, t362⟩, ⟨⟨(-(1 : α)), (0 : α), (0 : α)⟩, t364⟩, ⟨⟨(0 : α), (0 : α), (1 : α)⟩, t44⟩, ⟨⟨t83, t83, t84⟩, f⟩)
           else
             if t53 = (0 : α) then
-              (⟨⟨t371, t372, t371⟩, t⟩, ⟨⟨(1 : α), (0 : α), (0 : α)⟩, r⟩, ⟨⟨t367, t368, t367⟩, b⟩, ⟨⟨(-(1 : α)), (0 : α), (0 : α)⟩, t363⟩, ⟨⟨t326, t326, t327⟩, t44⟩, ⟨⟨(0 : α), (0 : α), (-(1 : α))⟩, f⟩)
+              (⟨⟨t372, t373, t372⟩, t⟩, ⟨⟨(1 : α), (0 : α), (0 : α)⟩, r⟩, ⟨⟨t368, t369, t368⟩, t362⟩, ⟨⟨(-(1 : α)), (0 : α), (0 : α)⟩, t364⟩, ⟨⟨t326, t326, t327⟩, t44⟩, ⟨⟨(0 : α), (0 : α), (-(1 : α))⟩, f⟩)
             else
-              (⟨⟨t371, t372, t371⟩, t⟩, ⟨⟨(1 : α), (0 : α), (0 : α)⟩, r⟩, ⟨⟨t367, t368, t367⟩, b⟩, ⟨⟨(-(1 : α)), (0 : α), (0 : α)⟩, t363⟩, ⟨⟨t326, t326, t327⟩, t44⟩, ⟨⟨t83, t83, t84⟩, f⟩)
+              (⟨⟨t372, t373, t372⟩, t⟩, ⟨⟨(1 : α), (0 : α), (0 : α)⟩, r⟩, ⟨⟨t368, t369, t368⟩, t362⟩, ⟨⟨(-(1 : α)), (0 : α), (0 : α)⟩, t364⟩, ⟨⟨t326, t326, t327⟩, t44⟩, ⟨⟨t83, t83, t84⟩, f⟩)
         else
           if t325 = (0 : α) then
             if t53 = (0 : α) then
-              (⟨⟨t371, t372, t371⟩, t⟩, ⟨⟨(1 : α), (0 : α), (0 : α)⟩, r⟩, ⟨⟨t367, t368, t367⟩, b⟩, ⟨⟨t365, t366, t366⟩, t363⟩, ⟨⟨(0 : α), (0 : α), (1 : α)⟩, t44⟩, ⟨⟨(0 : α), (0 : α), (-(1 : α))⟩, f⟩)
+              (⟨⟨t372, t373, t372⟩, t⟩, ⟨⟨(1 : α), (0 : α), (0 : α)⟩, r⟩, ⟨⟨t368, t369, t368⟩, t362⟩, ⟨⟨t366, t367, t367⟩, t364⟩, ⟨⟨(0 : α), (0 : α), (1 : α)⟩, t44⟩, ⟨⟨(0 : α), (0 : α), (-(1 : α))⟩, f⟩)
             else
-              (⟨⟨t371, t372, t371⟩, t⟩, ⟨⟨(1 : α), (0 : α), (0 : α)⟩, r⟩, ⟨⟨t367, t368, t367⟩, b⟩, ⟨⟨t365, t366, t366⟩, t363⟩, ⟨⟨(0 : α), (0 : α), (1 : α)⟩, t44⟩, ⟨⟨t83, t83, t84⟩, f⟩)
+              (⟨⟨t372, t373, t372⟩, t⟩, ⟨⟨(1 : α), (0 : α), (0 : α)⟩, r⟩, ⟨⟨t368, t369, t368⟩, t362⟩, ⟨⟨t366, t367, t367⟩, t364⟩, ⟨⟨(0 : α), (0 : α), (1 : α)⟩, t44⟩, ⟨⟨t83, t83, t84⟩, f⟩)
           else
             if t53 = (0 : α) then
-              (⟨⟨t371, t372, t371⟩, t⟩, ⟨⟨(1 : α), (0 : α), (0 : α)⟩, r⟩, ⟨⟨t367, t368, t367⟩, b⟩, ⟨⟨t365, t366, t366⟩, t363⟩, ⟨⟨t326, t326, t327⟩, t44⟩, ⟨⟨(0 : α), (0 : α), (-(1 : α))⟩, f⟩)
+              (⟨⟨t372, t373, t372⟩, t⟩, ⟨⟨(1 : α), (0 : α), (0 : α)⟩, r⟩, ⟨⟨t368, t369, t368⟩, t362⟩, ⟨⟨t366, t367, t367⟩, t364⟩, ⟨⟨t326, t326, t327⟩, t44⟩, ⟨⟨(0 : α), (0 : α), (-(1 : α))⟩, f⟩)
             else
-              (⟨⟨t371, t372, t371⟩, t⟩, ⟨⟨(1 : α), (0 : α), (0 : α)⟩, r⟩, ⟨⟨t367, t368, t367⟩, b⟩, ⟨⟨t365, t366, t366⟩, t363⟩, ⟨⟨t326, t326, t327⟩, t44⟩, ⟨⟨t83, t83, t84⟩, f⟩)
+              (⟨⟨t372, t373, t372⟩, t⟩, ⟨⟨(1 : α), (0 : α), (0 : α)⟩, r⟩, ⟨⟨t368, t369, t368⟩, t362⟩, ⟨⟨t366, t367, t367⟩, t364⟩, ⟨⟨t326, t326, t327⟩, t44⟩, ⟨⟨t83, t83, t84⟩, f⟩)
     else
-      if t362 = (0 : α) then
-        if t364 = (0 : α) then
+      if t363 = (0 : α) then
+        if t365 = (0 : α) then
           if t325 = (0 : α) then
             if t53 = (0 : α) then
-              (⟨⟨t371, t372, t371⟩, t⟩, ⟨⟨t369, t370, t370⟩, r⟩, ⟨⟨(0 : α), (-(1 : α)), (0 : α)⟩, b⟩, ⟨⟨(-(1 : α)), (0 : α), (0 : α)⟩, t363⟩, ⟨⟨(0 : α), (0 : α), (1 : α)⟩, t44⟩, ⟨⟨(0 : α), (0 : α), (-(1 : α))⟩, f⟩)
+              (⟨⟨t372, t373, t372⟩, t⟩, ⟨⟨t370, t371, t371⟩, r⟩, ⟨⟨(0 : α), (-(1 : α)), (0 : α)⟩, t362⟩, ⟨⟨(-(1 : α)), (0 : α), (0 : α)⟩, t364⟩, ⟨⟨(0 : α), (0 : α), (1 : α)⟩, t44⟩, ⟨⟨(0 : α), (0 : α), (-(1 : α))⟩, f⟩)
             else
-              (⟨⟨t371, t372, t371⟩, t⟩, ⟨⟨t369, t370, t370⟩, r⟩, ⟨⟨(0 : α), (-(1 : α)), (0 : α)⟩, b⟩, ⟨⟨(-(1 : α)), (0 : α), (0 : α)⟩, t363⟩, ⟨⟨(0 : α), (0 : α), (1 : α)⟩, t44⟩, ⟨⟨t83, t83, t84⟩, f⟩)
+              (⟨⟨t372, t373, t372⟩, t⟩, ⟨⟨t370, t371, t371⟩, r⟩, ⟨⟨(0 : α), (-(1 : α)), (0 : α)⟩, t362⟩, ⟨⟨(-(1 : α)), (0 : α), (0 : α)⟩, t364⟩, ⟨⟨(0 : α), (0 : α), (1 : α)⟩, t44⟩, ⟨⟨t83, t83, t84⟩, f⟩)
           else
             if t53 = (0 : α) then
-              (⟨⟨t371, t372, t371⟩, t⟩, ⟨⟨t369, t370, t370⟩, r⟩, ⟨⟨(0 : α), (-(1 : α)), (0 : α)⟩, b⟩, ⟨⟨(-(1 : α)), (0 : α), (0 : α)⟩, t363⟩, ⟨⟨t326, t326, t327⟩, t44⟩, ⟨⟨(0 : α), (0 : α), (-(1 : α))⟩, f⟩)
+              (⟨⟨t372, t373, t372⟩, t⟩, ⟨⟨t370, t371, t371⟩, r⟩, ⟨⟨(0 : α), (-(1 : α)), (0 : α)⟩, t362⟩, ⟨⟨(-(1 : α)), (0 : α), (0 : α)⟩, t364⟩, ⟨⟨t326, t326, t327⟩, t44⟩, ⟨⟨(0 : α), (0 : α), (-(1 : α))⟩, f⟩)
             else
-              (⟨⟨t371, t372, t371⟩, t⟩, ⟨⟨t369, t370, t370⟩, r⟩, ⟨⟨(0 : α), (-(1 : α)), (0 : α)⟩, b⟩, ⟨⟨(-(1 : α)), (0 : α), (0 : α)⟩, t363⟩, ⟨⟨t326, t326, t327⟩, t44⟩, ⟨⟨t83, t83, t84⟩, f⟩)
+              (⟨⟨t372, t373, t372⟩, t⟩, ⟨⟨t370, t371, t371⟩, r⟩, ⟨⟨(0 : α), (-(1 : α)), (0 : α)⟩, t362⟩, ⟨⟨(-(1 : α)), (0 : α), (0 : α)⟩, t364⟩, ⟨⟨t326, t326, t327⟩, t44⟩, ⟨⟨t83, t83, t84⟩, f⟩)
         else
           if t325 = (0 : α) then
             if t53 = (0 : α) then
-              (⟨⟨t371, t372, t371⟩, t⟩, ⟨⟨t369, t370, t370⟩, r⟩, ⟨⟨(0 : α), (-(1 : α)), (0 : α)⟩, b⟩, ⟨⟨t365, t366, t366⟩, t363⟩, ⟨⟨(0 : α), (0 : α), (1 : α)⟩, t44⟩, ⟨⟨(0 : α), (0 : α), (-(1 : α))⟩, f⟩)
+              (⟨⟨t372, t373, t372⟩, t⟩, ⟨⟨t370, t371, t371⟩, r⟩, ⟨⟨(0 : α), (-(1 : α)), (0 : α)⟩, t362⟩, ⟨⟨t366, t367, t367⟩, t364⟩, ⟨⟨(0 : α), (0 : α), (1 : α)⟩, t44⟩, ⟨⟨(0 : α), (0 : α), (-(1 : α))⟩, f⟩)
             else
-              (⟨⟨t371, t372, t371⟩, t⟩, ⟨⟨t369, t370, t370⟩, r⟩, ⟨⟨(0 : α), (-(1 : α)), (0 : α)⟩, b⟩, ⟨⟨t365, t366, t366⟩, t363⟩, ⟨⟨(0 : α), (0 : α), (1 : α)⟩, t44⟩, ⟨⟨t83, t83, t84⟩, f⟩)
+              (⟨⟨t372, t373, t372⟩, t⟩, ⟨⟨t370, t371, t371⟩, r⟩, ⟨⟨(0 : α), (-(1 : α)), (0 : α)⟩, t362⟩, ⟨⟨t366, t367, t367⟩, t364⟩, ⟨⟨(0 : α), (0 : α), (1 : α)⟩, t44⟩, ⟨⟨t83, t83, t84⟩, f⟩)
           else
             if t53 = (0 : α) then
-              (⟨⟨t371, t372, t371⟩, t⟩, ⟨⟨t369, t370, t370⟩, r⟩, ⟨⟨(0 : α), (-(1 : α)), (0 : α)⟩, b⟩, ⟨⟨t365, t366, t366⟩, t363⟩, ⟨⟨t326, t326, t327⟩, t44⟩, ⟨⟨(0 : α), (0 : α), (-(1 : α))⟩, f⟩)
+              (⟨⟨t372, t373, t372⟩, t⟩, ⟨⟨t370, t371, t371⟩, r⟩, ⟨⟨(0 : α), (-(1 : α)), (0 : α)⟩, t362⟩, ⟨⟨t366, t367, t367⟩, t364⟩, ⟨⟨t326, t326, t327⟩, t44⟩, ⟨⟨(0 : α), (0 : α), (-(1 : α))⟩, f⟩)
             else
-              (⟨⟨t371, t372, t371⟩, t⟩, ⟨⟨t369, t370, t370⟩, r⟩, ⟨⟨(0 : α), (-(1 : α)), (0 : α)⟩, b⟩, ⟨⟨t365, t366, t366⟩, t363⟩, ⟨⟨t326, t326, t327⟩, t44⟩, ⟨⟨t83, t83, t84⟩, f⟩)
+              (⟨⟨t372, t373, t372⟩, t⟩, ⟨⟨t370, t371, t371⟩, r⟩, ⟨⟨(0 : α), (-(1 : α)), (0 : α)⟩, t362⟩, ⟨⟨t366, t367, t367⟩, t364⟩, ⟨⟨t326, t326, t327⟩, t44⟩, ⟨⟨t83, t83, t84⟩, f⟩)
       else
-        if t364 = (0 : α) then
+        if t365 = (0 : α) then
           if t325 = (0 : α) then
             if t53 = (0 : α) then
-              (⟨⟨t371, t372, t371⟩, t⟩, ⟨⟨t369, t370, t370⟩, r⟩, ⟨⟨t367, t368, t367⟩, b⟩, ⟨⟨(-(1 : α)), (0 : α), (0 : α)⟩, t363⟩, ⟨⟨(0 : α), (0 : α), (1 : α)⟩, t44⟩, ⟨⟨(0 : α), (0 : α), (-(1 : α))⟩, f⟩)
+              (⟨⟨t372, t373, t372⟩, t⟩, ⟨⟨t370, t371, t371⟩, r⟩, ⟨⟨t368, t369, t368⟩, t362⟩, ⟨⟨(-(1 : α)), (0 : α), (0 : α)⟩, t364⟩, ⟨⟨(0 : α), (0 : α), (1 : α)⟩, t44⟩, ⟨⟨(0 : α), (0 : α), (-(1 : α))⟩, f⟩)
             else
-              (⟨⟨t371, t372, t371⟩, t⟩, ⟨⟨t369, t370, t370⟩, r⟩, ⟨⟨t367, t368, t367⟩, b⟩, ⟨⟨(-(1 : α)), (0 : α), (0 : α)⟩, t363⟩, ⟨⟨(0 : α), (0 : α), (1 : α)⟩, t44⟩, ⟨⟨t83, t83, t84⟩, f⟩)
+              (⟨⟨t372, t373, t372⟩, t⟩, ⟨⟨t370, t371, t371⟩, r⟩, ⟨⟨t368, t369, t368⟩, t362⟩, ⟨⟨(-(1 : α)), (0 : α), (0 : α)⟩, t364⟩, ⟨⟨(0 : α), (0 : α), (1 : α)⟩, t44⟩, ⟨⟨t83, t83, t84⟩, f⟩)
           else
             if t53 = (0 : α) then
-              (⟨⟨t371, t372, t371⟩, t⟩, ⟨⟨t369, t370, t370⟩, r⟩, ⟨⟨t367, t368, t367⟩, b⟩, ⟨⟨(-(1 : α)), (0 : α), (0 : α)⟩, t363⟩, ⟨⟨t326, t326, t327⟩, t44⟩, ⟨⟨(0 : α), (0 : α), (-(1 : α))⟩, f⟩)
+              (⟨⟨t372, t373, t372⟩, t⟩, ⟨⟨t370, t371, t371⟩, r⟩, ⟨⟨t368, t369, t368⟩, t362⟩, ⟨⟨(-(1 : α)), (0 : α), (0 : α)⟩, t364⟩, ⟨⟨t326, t326, t327⟩, t44⟩, ⟨⟨(0 : α), (0 : α), (-(1 : α))⟩, f⟩)
             else
-              (⟨⟨t371, t372, t371⟩, t⟩, ⟨⟨t369, t370, t370⟩, r⟩, ⟨⟨t367, t368, t367⟩, b⟩, ⟨⟨(-(1 : α)), (0 : α), (0 : α)⟩, t363⟩, ⟨⟨t326, t326, t327⟩, t44⟩, ⟨⟨t83, t83, t84⟩, f⟩)
+              (⟨⟨t372, t373, t372⟩, t⟩, ⟨⟨t370, t371, t371⟩, r⟩, ⟨⟨t368, t369, t368⟩, t362⟩, ⟨⟨(-(1 : α)), (0 : α), (0 : α)⟩, t364⟩, ⟨⟨t326, t326, t327⟩, t44⟩, ⟨⟨t83, t83, t84⟩, f⟩)
         else
           if t325 = (0 : α) then
             if t53 = (0 : α) then
-              (⟨⟨t371, t372, t371⟩, t⟩, ⟨⟨t369, t370, t370⟩, r⟩, ⟨⟨t367, t368, t367⟩, b⟩, ⟨⟨t365, t366, t366⟩, t363⟩, ⟨⟨(0 : α), (0 : α), (1 : α)⟩, t44⟩, ⟨⟨(0 : α), (0 : α), (-(1 : α))⟩, f⟩)
+              (⟨⟨t372, t373, t372⟩, t⟩, ⟨⟨t370, t371, t371⟩, r⟩, ⟨⟨t368, t369, t368⟩, t362⟩, ⟨⟨t366, t367, t367⟩, t364⟩, ⟨⟨(0 : α), (0 : α), (1 : α)⟩, t44⟩, ⟨⟨(0 : α), (0 : α), (-(1 : α))⟩, f⟩)
             else
-              (⟨⟨t371, t372, t371⟩, t⟩, ⟨⟨t369, t370, t370⟩, r⟩, ⟨⟨t367, t368, t367⟩, b⟩, ⟨⟨t365, t366, t366⟩, t363⟩, ⟨⟨(0 : α), (0 : α), (1 : α)⟩, t44⟩, ⟨⟨t83, t83, t84⟩, f⟩)
+              (⟨⟨t372, t373, t372⟩, t⟩, ⟨⟨t370, t371, t371⟩, r⟩, ⟨⟨t368, t369, t368⟩, t362⟩, ⟨⟨t366, t367, t367⟩, t364⟩, ⟨⟨(0 : α), (0 : α), (1 : α)⟩, t44⟩, ⟨⟨t83, t83, t84⟩, f⟩)
           else
             if t53 = (0 : α) then
-              (⟨⟨t371, t372, t371⟩, t⟩, ⟨⟨t369, t370, t370⟩, r⟩, ⟨⟨t367, t368, t367⟩, b⟩, ⟨⟨t365, t366, t366⟩, t363⟩, ⟨⟨t326, t326, t327⟩, t44⟩, ⟨⟨(0 : α), (0 : α), (-(1 : α))⟩, f⟩)
+              (⟨⟨t372, t373, t372⟩, t⟩, ⟨⟨t370, t371, t371⟩, r⟩, ⟨⟨t368, t369, t368⟩, t362⟩, ⟨⟨t366, t367, t367⟩, t364⟩, ⟨⟨t326, t326, t327⟩, t44⟩, ⟨⟨(0 : α), (0 : α), (-(1 : α))⟩, f⟩)
             else
-              (⟨⟨t371, t372, t371⟩, t⟩, ⟨⟨t369, t370, t370⟩, r⟩, ⟨⟨t367, t368, t367⟩, b⟩, ⟨⟨t365, t366, t366⟩, t363⟩, ⟨⟨t326, t326, t327⟩, t44⟩, ⟨⟨t83, t83, t84⟩, f⟩)
+              (⟨⟨t372, t373, t372⟩, t⟩, ⟨⟨t370, t371, t371⟩, r⟩, ⟨⟨t368, t369, t368⟩, t362⟩, ⟨⟨t366, t367, t367⟩, t364⟩, ⟨⟨t326, t326, t327⟩, t44⟩, ⟨⟨t83, t83, t84⟩, f⟩)
 
 end ImathVerif.Gen
